@@ -39,7 +39,7 @@ Ev == Trace[l]
 SetOf(q) == {q[i] : i \in 1 .. Len(q)}
 MaxK == 8
 
-CfgOf(e) == [range |-> SetOf(e.range), k |-> MaxK, atomic |-> FALSE, ret |-> TRUE, env |-> TRUE]
+CfgOf(e) == [range |-> SetOf(e.range), k |-> MaxK, atomic |-> FALSE, ret |-> TRUE, env |-> TRUE, sparse |-> FALSE]
 
 TraceInit ==
     /\ l = 2 /\ viol = ""
@@ -273,6 +273,11 @@ ObsViol(e) ==
         ELSE IF {ObsRec(o) : o \in live} # LiveRecs THEN tag \o ".live"
         \* (records damaged by the driver are compared by id only)
         ELSE IF {o.id : o \in dbo} # DOMAIN db THEN tag \o ".db"
+        \* @obligation C14.record  the record of a torrent holds exactly what was written for it (nothing is handed down by a
+        \*   record that failed to load and whose bucket the add re-uses): no info dictionary for a torrent added without
+        \*   one, no bitfield for a torrent that has never been started
+        ELSE IF \E o \in dbo : ~db[o.id].bad /\ ~db[o.id].p.st.meta /\ o.meta THEN "C14.record.inherited-info"
+        ELSE IF \E o \in dbo : ~db[o.id].bad /\ db[o.id].bf = "" /\ o.bf # "" THEN "C14.record.inherited-bitfield"
         ELSE IF {WithStarted(ObsRec(o), o.started) : o \in {x \in dbo : ~db[x.id].bad}} # {r \in DbRecs : ~db[r.id].bad} THEN tag \o ".db"
         ELSE IF av # ports THEN tag \o ".ports"
         ELSE IF AfterReopen /\ \E o \in live : o.run # "e" /\ ((o.run = "y") # db[o.id].started) THEN "C14.restart.started"
@@ -291,6 +296,8 @@ TrCrash == Ev.op = "crash" /\ Taint("C14.panic.process")
 CodecViol(e) ==
     IF e.err # "" THEN "C14.codec.error"
     ELSE IF Len(e.neq) > 0 THEN "C14.codec.roundtrip." \o e.neq[1]
+    \* ... also when the bucket existed before (C14.record: nothing of the previous record shows through)
+    ELSE IF Len(e.oneq) > 0 THEN "C14.codec.overwrite." \o e.oneq[1]
     ELSE IF Len(e.pneq) > 0 THEN "C14.codec.partial." \o e.pneq[1]
     ELSE IF Len(e.jneq) > 0 THEN "C14.codec.json." \o e.jneq[1]
     ELSE ""
